@@ -17,3 +17,127 @@ pub fn generichash(outlen: usize, input: &[u8], key: Option<&[u8]>) -> Option<Ve
     let r = unsafe { ffi::crypto_generichash(out.as_mut_ptr(), outlen, input.as_ptr(), input.len() as u64, kp, kl) };
     if r == 0 { Some(out) } else { None }
 }
+
+pub fn onetimeauth(msg: &[u8], key: &[u8; 32]) -> [u8; 16] {
+    let mut out = [0u8; 16];
+    unsafe { ffi::crypto_onetimeauth(out.as_mut_ptr(), msg.as_ptr(), msg.len() as u64, key.as_ptr()); }
+    out
+}
+pub fn onetimeauth_verify(mac: &[u8; 16], msg: &[u8], key: &[u8; 32]) -> bool {
+    unsafe { ffi::crypto_onetimeauth_verify(mac.as_ptr(), msg.as_ptr(), msg.len() as u64, key.as_ptr()) == 0 }
+}
+pub fn auth(msg: &[u8], key: &[u8; 32]) -> [u8; 32] {
+    let mut out = [0u8; 32];
+    unsafe { ffi::crypto_auth(out.as_mut_ptr(), msg.as_ptr(), msg.len() as u64, key.as_ptr()); }
+    out
+}
+pub fn auth_verify(mac: &[u8; 32], msg: &[u8], key: &[u8; 32]) -> bool {
+    unsafe { ffi::crypto_auth_verify(mac.as_ptr(), msg.as_ptr(), msg.len() as u64, key.as_ptr()) == 0 }
+}
+pub fn sha512(msg: &[u8]) -> [u8; 64] {
+    let mut out = [0u8; 64];
+    unsafe { ffi::crypto_hash_sha512(out.as_mut_ptr(), msg.as_ptr(), msg.len() as u64); }
+    out
+}
+pub fn shorthash(msg: &[u8], key: &[u8; 16]) -> [u8; 8] {
+    let mut out = [0u8; 8];
+    unsafe { ffi::crypto_shorthash(out.as_mut_ptr(), msg.as_ptr(), msg.len() as u64, key.as_ptr()); }
+    out
+}
+pub fn hsalsa20(input: &[u8; 16], key: &[u8; 32]) -> [u8; 32] {
+    let mut out = [0u8; 32];
+    unsafe { ffi::crypto_core_hsalsa20(out.as_mut_ptr(), input.as_ptr(), key.as_ptr(), std::ptr::null()); }
+    out
+}
+pub fn hchacha20(input: &[u8; 16], key: &[u8; 32]) -> [u8; 32] {
+    let mut out = [0u8; 32];
+    unsafe { ffi::crypto_core_hchacha20(out.as_mut_ptr(), input.as_ptr(), key.as_ptr(), std::ptr::null()); }
+    out
+}
+pub fn increment(v: &mut [u8]) {
+    unsafe { ffi::sodium_increment(v.as_mut_ptr(), v.len()); }
+}
+
+pub fn secretbox_easy(m: &[u8], n: &[u8; 24], k: &[u8; 32]) -> Vec<u8> {
+    let mut c = vec![0u8; m.len() + 16];
+    unsafe { ffi::crypto_secretbox_easy(c.as_mut_ptr(), m.as_ptr(), m.len() as u64, n.as_ptr(), k.as_ptr()); }
+    c
+}
+pub fn secretbox_open_easy(c: &[u8], n: &[u8; 24], k: &[u8; 32]) -> Option<Vec<u8>> {
+    if c.len() < 16 { return None; }
+    let mut m = vec![0u8; c.len() - 16];
+    let r = unsafe { ffi::crypto_secretbox_open_easy(m.as_mut_ptr(), c.as_ptr(), c.len() as u64, n.as_ptr(), k.as_ptr()) };
+    if r == 0 { Some(m) } else { None }
+}
+pub fn box_seed_keypair(seed: &[u8; 32]) -> ([u8; 32], [u8; 32]) {
+    let (mut pk, mut sk) = ([0u8; 32], [0u8; 32]);
+    unsafe { ffi::crypto_box_seed_keypair(pk.as_mut_ptr(), sk.as_mut_ptr(), seed.as_ptr()); }
+    (pk, sk)
+}
+pub fn box_beforenm(pk: &[u8; 32], sk: &[u8; 32]) -> Option<[u8; 32]> {
+    let mut k = [0u8; 32];
+    let r = unsafe { ffi::crypto_box_beforenm(k.as_mut_ptr(), pk.as_ptr(), sk.as_ptr()) };
+    if r == 0 { Some(k) } else { None }
+}
+pub fn box_easy(m: &[u8], n: &[u8; 24], pk: &[u8; 32], sk: &[u8; 32]) -> Option<Vec<u8>> {
+    let mut c = vec![0u8; m.len() + 16];
+    let r = unsafe { ffi::crypto_box_easy(c.as_mut_ptr(), m.as_ptr(), m.len() as u64, n.as_ptr(), pk.as_ptr(), sk.as_ptr()) };
+    if r == 0 { Some(c) } else { None }
+}
+pub fn box_open_easy(c: &[u8], n: &[u8; 24], pk: &[u8; 32], sk: &[u8; 32]) -> Option<Vec<u8>> {
+    if c.len() < 16 { return None; }
+    let mut m = vec![0u8; c.len() - 16];
+    let r = unsafe { ffi::crypto_box_open_easy(m.as_mut_ptr(), c.as_ptr(), c.len() as u64, n.as_ptr(), pk.as_ptr(), sk.as_ptr()) };
+    if r == 0 { Some(m) } else { None }
+}
+pub fn box_seal(m: &[u8], pk: &[u8; 32]) -> Vec<u8> {
+    let mut c = vec![0u8; m.len() + 48];
+    unsafe { ffi::crypto_box_seal(c.as_mut_ptr(), m.as_ptr(), m.len() as u64, pk.as_ptr()); }
+    c
+}
+pub fn box_seal_open(c: &[u8], pk: &[u8; 32], sk: &[u8; 32]) -> Option<Vec<u8>> {
+    if c.len() < 48 { return None; }
+    let mut m = vec![0u8; c.len() - 48];
+    let r = unsafe { ffi::crypto_box_seal_open(m.as_mut_ptr(), c.as_ptr(), c.len() as u64, pk.as_ptr(), sk.as_ptr()) };
+    if r == 0 { Some(m) } else { None }
+}
+pub fn scalarmult(n: &[u8; 32], p: &[u8; 32]) -> Option<[u8; 32]> {
+    let mut q = [0u8; 32];
+    let r = unsafe { ffi::crypto_scalarmult(q.as_mut_ptr(), n.as_ptr(), p.as_ptr()) };
+    if r == 0 { Some(q) } else { None }
+}
+pub fn scalarmult_base(n: &[u8; 32]) -> [u8; 32] {
+    let mut q = [0u8; 32];
+    unsafe { ffi::crypto_scalarmult_base(q.as_mut_ptr(), n.as_ptr()); }
+    q
+}
+
+#[derive(Clone)]
+pub struct SStream(pub ffi::crypto_secretstream_xchacha20poly1305_state);
+impl SStream {
+    pub fn from_parts(k: &[u8; 32], nonce: &[u8; 12]) -> Self {
+        SStream(ffi::crypto_secretstream_xchacha20poly1305_state { k: *k, nonce: *nonce, _pad: [0u8; 8] })
+    }
+    pub fn init(header: &[u8; 24], key: &[u8; 32]) -> Self {
+        let mut s = Self::from_parts(&[0; 32], &[0; 12]);
+        unsafe { ffi::crypto_secretstream_xchacha20poly1305_init_pull(&mut s.0, header.as_ptr(), key.as_ptr()); }
+        s
+    }
+    pub fn parts(&self) -> ([u8; 32], [u8; 12]) { (self.0.k, self.0.nonce) }
+    pub fn push(&mut self, m: &[u8], ad: &[u8], tag: u8) -> Vec<u8> {
+        let mut c = vec![0u8; m.len() + 17];
+        let mut clen: u64 = 0;
+        unsafe { ffi::crypto_secretstream_xchacha20poly1305_push(&mut self.0, c.as_mut_ptr(), &mut clen, m.as_ptr(), m.len() as u64, ad.as_ptr(), ad.len() as u64, tag); }
+        c.truncate(clen as usize);
+        c
+    }
+    pub fn pull(&mut self, c: &[u8], ad: &[u8]) -> Option<(Vec<u8>, u8)> {
+        if c.len() < 17 { return None; }
+        let mut m = vec![0u8; c.len() - 17];
+        let mut mlen: u64 = 0;
+        let mut tag: u8 = 0;
+        let r = unsafe { ffi::crypto_secretstream_xchacha20poly1305_pull(&mut self.0, m.as_mut_ptr(), &mut mlen, &mut tag, c.as_ptr(), c.len() as u64, ad.as_ptr(), ad.len() as u64) };
+        if r == 0 { m.truncate(mlen as usize); Some((m, tag)) } else { None }
+    }
+    pub fn rekey(&mut self) { unsafe { ffi::crypto_secretstream_xchacha20poly1305_rekey(&mut self.0); } }
+}
